@@ -697,6 +697,10 @@ pub fn run(a: &ShardArgs) -> Result<(), String> {
     if only.is_none() {
         strictness(a);
     }
+    if a.extra.iter().any(|x| x == "--direct-only") {
+        // interpreter runs: the parser / iterator / extraction code only (no sessions)
+        return Ok(());
+    }
     let n = a.n(3000);
     for idx in 0..n {
         if idx % a.nshards != a.shard {
